@@ -16,7 +16,7 @@
 #include <sys/timerfd.h>
 #include <sys/un.h>
 
-#define MAX_FD 1024
+#define MAX_FD 4096
 enum { K_NONE = 0, K_PIPE_R, K_PIPE_W, K_SOCK, K_EPOLL, K_TIMER, K_SELFPIPE_R, K_SELFPIPE_W, K_OTHER };
 
 typedef struct {
@@ -31,7 +31,7 @@ typedef struct {
 static SimFd fdt[MAX_FD];
 static int next_lid;
 
-#define MAX_REG 512
+#define MAX_REG 4096
 static struct {
     int used;
     int epfd, fd;
